@@ -43,7 +43,10 @@ func (f *ownFam) Setup(cfg M, rng *rand.Rand) {
 		}
 	}
 	// registered names held by a and b (a holds two, one of them primary): a MakePrimary by anybody else must not touch them
-	for _, r := range []struct{ who, name string; prim bool }{{"a", "alpha.jkl", true}, {"a", "spare.jkl", false}, {"b", "beta.jkl", false}} {
+	for _, r := range []struct {
+		who, name string
+		prim      bool
+	}{{"a", "alpha.jkl", true}, {"a", "spare.jkl", false}, {"b", "beta.jkl", false}} {
 		if _, err := f.c.Msg(f.c.Ctx, &rtypes.MsgRegisterName{Creator: f.c.Acct(r.who).S(), Name: r.name, Years: 1, Data: "{}", SetPrimary: r.prim}); err != nil {
 			die(2, "own: register %s: %v", r.name, err)
 		}
